@@ -320,7 +320,9 @@ func cmdCheck(prop, tier string, rest []string) int {
 	isKnown := func(ob *Obligation) *knownFinding {
 		for i := range known {
 			k := &known[i]
-			if k.Status == "open" && k.Property == prop && k.Obligation == ob.Name {
+			// (a function may be listed under several properties: an open finding
+			// is the same finding under whichever of them the check runs)
+			if k.Status == "open" && k.Obligation == ob.Name {
 				return k
 			}
 		}
